@@ -129,4 +129,5 @@ func runC12(cw *caseWriter, tier string, seed uint64) {
 		runScenarios(cw, 7, seed*100000, 400, 12)
 		runScenarios(cw, 8, seed*100000, 120, 4)
 	}
+	runC104(cw, tier, seed, 0) // snapshot transfer inside the composed cluster system (Model/ClusterSnap.v)
 }
